@@ -20,7 +20,9 @@ import CifModel.Model.Fill
   the parser model built (same enumeration orders); `ord` = the same content in another order; `BAD…` = the composition of the
   two models fails on this input (a disagreement for the generator's `agree`; `BADnumb`: a value handed to the store contains a
   number object — the hypothesis of C07_parser_route would not be the parser's own guarantee; `BADexpr`: `storeOps` cannot express
-  the trace — since `Store.Op.mkBlock / mkFrame` carry the `lenient` flag (group gX) that cannot happen: `C03_storeOps_total`);
+  the trace (a call on a container that got no handle before — since `Store.Op.mkBlock / mkFrame` carry the `lenient` flag, group gX,
+  there is no other reason); `BADshape`: a cif_loop_add_packet that does not directly follow the create_loop / add_packet of the same
+  container — the hypothesis `shapedFrom` of `C03_parser_store_refines_covered_partial`);
   `skip` = there is no target, or the pre-existing content is not buildable by `cifOps` (for a pre-filled target the history is
   `cifOps initial ++ trace`).  Lenient creations are no longer skipped.
 
@@ -105,6 +107,7 @@ def answer (args : List String) : Option String :=
       match cifOps o initial with
       | none => "skip"
       | some pre =>
+      if !shapedFrom none (pre ++ tr) then "BADshape" else
       match storeOps o (pre ++ tr) with
       | none => "BADexpr"
       | some sops =>
